@@ -206,6 +206,13 @@ def client_shapes() -> dict[str, bool]:
         return mark is not None and io is not None and mark < io
 
     out["closeMarksClosedFirst"] = closed_first(cl)
+    # `_TRANSPORT_ERRORS`: exactly the classes the model treats as "the transport is dead" (the session is flagged closed
+    # without ending its input or draining).  Pinned: widening it (e.g. to ValueError, the base of pa.ArrowInvalid) makes
+    # ordinary exceptions of the on_log callback look like a dead transport.
+    te = next((n for n in tree.body if isinstance(n, ast.Assign) and ast.unparse(n.targets[0]) == "_TRANSPORT_ERRORS"), None)
+    names = sorted(ast.unparse(e) for e in te.value.elts) if te is not None and isinstance(te.value, ast.Tuple) else []
+    out["transportErrorsPinned"] = names == sorted(["BrokenPipeError", "ConnectionResetError", "ConnectionAbortedError", "EOFError",
+                                                    "pa.ArrowInvalid"])
     cn = _func(tree, "cancel")
     out["cancelMarksClosedFirst"] = closed_first(cn)
     c = _calls(cn)
